@@ -131,6 +131,24 @@ def gen_program(rng):
                 a = gen_arg([], 0)
                 block += a if (len(a) == 1 and rng.random() < 0.5) else ["{"] + a + ["}"]
         items.append(('call', run, ["{"] + block + ["}"]))
+    elif r < 0.65:
+        # a global label defined by the expansion (named by an argument, or literally in the body) opens the scope for the
+        # local labels written after the call, exactly as if it had been written at the call site
+        mk, par, g = fresh("mkl"), fresh("par"), fresh("Glb")
+        if rng.random() < 0.5:
+            items.append(('def', mk, [par], [('raw', [par, ":"]), ('db', [str(rng.randrange(1, 90))])]))
+            items.append(('call', mk, [g]))
+        else:
+            items.append(('def', mk, [par], [('raw', [g, ":"]), ('db', [par])]))
+            items.append(('call', mk, [str(rng.randrange(1, 90))]))
+        lc = ".lc%d" % rng.randrange(1, 9)
+        items.append(('raw', [lc, ":"]))
+        items.append(('db', [str(rng.randrange(1, 90))]))
+        items.append(('raw', ["@dw", g + lc, ",", lc]))
+        g2 = fresh("Glb")
+        items.append(('raw', [g2, ":"]))
+        items.append(('raw', [lc, ":"]))
+        items.append(('raw', ["@dw", g2 + lc, "-", g + lc]))
     return items
 
 def render(items, indent=""):
